@@ -690,6 +690,16 @@ class CallMixin:
         args, kw = self.args_of(node, st)
         if attr == "keys":
             return VSet(d.kty, d.m, d.c) if not getattr(d, "empty_literal", False) else self.bi_set(ast.Call(args=[]), st)
+        if attr == "items" and not getattr(d, "empty_literal", False):
+            # an arbitrary enumeration of the (key, value) pairs
+            keys = self.list_of_set(VSet(d.kty, d.m, d.c), st)
+            i = z3.Int(fresh_name("it"))
+            pair = VTuple([keys.get(i), unpack(d.vty, z3.Select(d.a, z3.Select(keys.a, i)))])
+            return VList(pair.ty, keys.n, z3.Lambda([i], pack(pair)))
+        if attr == "values" and not getattr(d, "empty_literal", False):
+            keys = self.list_of_set(VSet(d.kty, d.m, d.c), st)
+            i = z3.Int(fresh_name("it"))
+            return VList(d.vty, keys.n, z3.Lambda([i], z3.Select(d.a, z3.Select(keys.a, i))))
         if attr == "get":
             k = pack(coerce(args[0], d.kty))
             dflt = args[1] if len(args) > 1 else VNone()
